@@ -160,12 +160,15 @@ type RunOpts struct {
 	RecordWrites bool
 	WriteDelayAt int
 	WriteDelay   time.Duration
-	RetryTarget  *model.Status
-	RetryDAG     *dag.DAG
-	Dir          string // reuse this case directory (retry of a recorded run)
-	KeepDirs     bool
-	HangBound    time.Duration
-	Quiet        bool
+	// DuringDelay is called while history write #WriteDelayAt of the run is held back (the
+	// run's process is alive and has not recorded that status yet); n is the write's number.
+	DuringDelay func(r *Runner, n int, st *model.Status)
+	RetryTarget *model.Status
+	RetryDAG    *dag.DAG
+	Dir         string // reuse this case directory (retry of a recorded run)
+	KeepDirs    bool
+	HangBound   time.Duration
+	Quiet       bool
 }
 
 // Runner holds the live handles of one run.
@@ -241,6 +244,9 @@ func buildSteps(spec *CaseSpec, dir string) ([]dag.Step, map[string]*dag.Step, [
 		}
 		if s.Repeat {
 			st.RepeatPolicy = dag.RepeatPolicy{Repeat: true, Interval: time.Duration(s.RepeatMs) * time.Millisecond}
+		}
+		if s.SubWorkflow {
+			st.SubWorkflow = &dag.SubWorkflow{Name: "child-of-" + s.Name}
 		}
 		if s.PrecondVar != "" || s.PrecondText != "" {
 			st.Preconditions = append(st.Preconditions, dag.Condition{Condition: precondText(s), Expected: precondExpect(s)})
@@ -1006,6 +1012,7 @@ type recordingHistory struct {
 	n        int
 	delayAt  int // 1-based number of the Write call that is delayed (0 = none)
 	delay    time.Duration
+	during   func(n int, st *model.Status)
 	closed   bool
 	late     int // Write calls that arrived after Close
 	lateText []string
@@ -1026,6 +1033,9 @@ func (h *recordingHistory) Write(st *model.Status) error {
 	h.mu.Unlock()
 	if n == h.delayAt && h.delay > 0 {
 		// injected delay at the store boundary (a slow disk / descheduled goroutine)
+		if h.during != nil {
+			h.during(n, st)
+		}
 		time.Sleep(h.delay)
 	}
 	h.mu.Lock()
@@ -1058,6 +1068,9 @@ func (r *Runner) runAgent(dir string, out *Outcome, pause time.Duration, runDone
 	var stores persistence.DataStores = dsclient.NewDataStores(dagsDir, dataDir, filepath.Join(dir, "suspend"), dsclient.DataStoreOptions{})
 	rec := &recordingHistory{HistoryStore: stores.HistoryStore(), keep: r.opts.RecordWrites,
 		delayAt: r.opts.WriteDelayAt, delay: r.opts.WriteDelay}
+	if r.opts.DuringDelay != nil {
+		rec.during = func(n int, st *model.Status) { r.opts.DuringDelay(r, n, st) }
+	}
 	stores = &recordingStores{DataStores: stores, hs: rec}
 	cli := client.New(stores, "/bin/false", dir, quietLogger)
 	r.Client, r.Stores = cli, stores
